@@ -200,7 +200,7 @@ def include_region(Tr, pl, e, start, end, done):
     """events of the forced-include phase: lookups from the file's directory on this
     platform object, each hit followed by insert + associate with the same object"""
     ip, df, inc, file = entry_lists(e)
-    d = F.dirname(file)
+    d = F.dirname(F.realpath(file))          # beside the physical file, however its path is spelled
     evj = ev(Tr, j_)
     inreg = z3.And(start <= j_, j_ < end)
     return [
